@@ -270,13 +270,13 @@ LATER = {
  "C04": "Tags also include class dicts and names of other modules' classes under Pyro5.errors; proxy-valued members rotate through every slot (args, attributes, the 'args' attribute, short states, every position of a uri state of each protocol).",
  "C05": "Items include a complete valid message followed at once by a reset (bytes stay readable, every answer fails), also against a thread-pool server whose workers are all busy.",
  "C08": "Validators also refuse with message-less exceptions; first messages include foreign protocols shorter than a header with the peer waiting silently.",
- "C09": "Histories also end connections with a reset, move them to a second daemon, and register classes that inherit their behaviour from a base class.",
+ "C09": "Histories also end connections with a reset, move them to a second daemon, unregister and re-register the classes half way, and register classes that inherit or override an inherited behaviour; creators include a falsy callable.",
  "C10": "Straddle scripts (tenths of a second) run housekeeping shortly before and shortly after the linger / lifetime deadline.",
  "C11": "The journal also exists as a class with one instance per connection (effects read back through the caller's own proxy); a refused name must be named by the exception; long batches.",
  "C12": "The daemon's annotations hook hands out one stored dict; a concurrent pass interleaves slow methods of several clients.",
  "C13": "A request left unfinished past the communication timeout and a security error are endings after which the daemon must drop the connection.",
  "C16": "Histories include unregistering a fresh instance of a registered class, ids no uri can carry, and a completely enumerated family in which a weakly registered object's id passes to another object before it is collected.",
- "C18": "The hand-over of a job and the moment the pool becomes closed are logged inside the critical sections and tied to the atomic effects; grow / shrink / grow scripts; the close starts together with a submission.",
+ "C18": "Delay-bounded schedules hold one worker back at each of its first steps. The hand-over of a job and the moment the pool becomes closed are logged inside the critical sections and tied to the atomic effects; grow / shrink / grow scripts; the close starts together with a submission.",
 }
 NOT_YET = {}
 ALL = ["C%02d" % i for i in range(1, 21)]
